@@ -54,6 +54,23 @@ PROPS = {
                     "ascending and permutation); that the implementation equals the reference is decided per generated call by the correspondence, not proved"],
         "corr_cases_are_inputs": True,
     },
+    "C14": {
+        "n_quick": 4500, "n_thorough": 60000,
+        "check_fn": "k14_check",
+        "rule": "45 functions round-robin x wholly known argument lists from the per-function generators: numbers of every magnitude / precision class incl. infinities, strings over an "
+                "alphabet with multi-code-point grapheme clusters (combining sequences, emoji with modifiers and ZWJ, regional indicators), cut sets and separators that fall inside clusters, "
+                "format strings from the verb grammar with flags / width / precision / argument indices plus one directed verb-and-argument pair against fmt, RFC 3339 stamps (valid and "
+                "invalid), durations, date format strings with every verb and quoting form, JSON documents and JSON-representable values, CSV documents; non-trivial = every call",
+        "trusted_base": TB_VALUE + ["Go's strings, fmt, math, math/big (Rat), time, encoding/csv packages are the implementation-side reference for the functions documented as agreeing with them",
+                                    "grapheme cluster segmentation is the textseg library on both sides; the Gallina reference receives the segmentation with each case",
+                                    "NFC normalisation of results is supplied as a per-case table built from the Go reference's raw results"],
+        "assumptions": ["negative zero is not generated", "numbers with binary exponent beyond +-600 are not generated"],
+        "partial": ["the Gallina reference and its theorems cover arithmetic, comparison, min/max, int/ceil/floor/signum, parseint, chomp, indent, trimprefix/suffix, replace, split, join, "
+                    "strlen, reverse, substr and jsonencode (28 functions); case mapping, trimspace/trim, title, log, pow, format, formatlist, regex, csvdecode, formatdate, timeadd and "
+                    "jsondecode are decided against Go's standard library and inverse laws by the oracle only",
+                    "format is compared with fmt on single directed verbs; the full verb grammar and formatlist are exercised for totality and type soundness (C11) only"],
+        "corr_cases_are_inputs": True,
+    },
     "C15": {
         "n_quick": 420, "n_thorough": 9000,
         "check_fn": "k15_check",
